@@ -2,7 +2,7 @@ use std::ops::Range;
 
 use typst_syntax::{
     ast::{Expr, Markup, Pattern},
-    LinkedNode, Source, Span, SyntaxKind,
+    is_id_continue, LinkedNode, Source, Span, SyntaxKind,
 };
 
 use crate::{
@@ -62,10 +62,26 @@ impl Typstyle {
         } else {
             utils::count_spaces_after_last_newline(source.text(), node.range().start)
         };
-        let res = doc
+        let mut res = doc
             .nest(indent as isize)
             .pretty(self.config.max_width)
             .to_string();
+        // Inside code the node may touch a word (`if(x) => y`, `(a)in b`). When the formatted
+        // text starts or ends with a word as well, keep the two apart.
+        if !matches!(
+            node.parent_kind(),
+            None | Some(SyntaxKind::Markup | SyntaxKind::Math)
+        ) {
+            let text = source.text();
+            let before = text[..node.range().start].chars().next_back();
+            let after = text[node.range().end..].chars().next();
+            if before.is_some_and(is_id_continue) && res.starts_with(is_id_continue) {
+                res.insert(0, ' ');
+            }
+            if after.is_some_and(is_id_continue) && res.ends_with(is_id_continue) {
+                res.push(' ');
+            }
+        }
         #[cfg(typstyle_verif)]
         crate::verif_hooks::point(crate::verif_hooks::Point::RangeExit);
         Ok((node.range(), res))
